@@ -43,6 +43,8 @@ PROP = [  # (subject fragment, property ids, key that used to be reported)
  ("coloured combined-diff line with a tab among its prefix columns panicked", 'C03', "panic|...superimpose|String mismatch...|via:delta::handlers::hunk::*handle_hunk_line (combined diff, moved-colour line '+<TAB>x')"),
  ("side-by-side wrapping panicked when syntax and diff sections split a grapheme differently", 'C03,C07', "panic|delta::wrapping::wrap_minusplus_block::wrap_syntax_and_diff|assertion `_` failed: syntax and diff wrapping differs; panic|...superimpose|String mismatch...|via:delta::features::side_by_side::paint_minus_or_plus_panel_line / paint_zero_lines_side_by_side (formerly an open finding)"),
  ("grep hit whose raw line and parsed code disagree panicked", 'C03', "panic|...superimpose|String mismatch...|via:delta::handlers::grep::*_emit_classic_format_code ('!<C3>:<ESC><TAB>](' under git grep)"),
+ ("raw line of a combined diff with a non-ASCII prefix column panicked", 'C03', "panic|...superimpose|String mismatch...|via:delta::handlers::hunk::*handle_hunk_line ('@@@@@ -6@' + '<9F>+z >', found by the thorough tier)"),
+ ("two enormous lines of tabs or zero-width characters aborted delta", 'C03', "signal|6 (memory allocation failed in align::Alignment::new: removed and added line of 2^20 tabs each; found by the huge-input items of the thorough tier)"),
 ]
 log = subprocess.run(['git', '-C', '/repo', 'log', '--format=%H%x09%s', '--reverse'], stdout=subprocess.PIPE).stdout.decode().splitlines()
 fixes = [l.split('\t', 1) for l in log if '\tfix:' in l]
